@@ -576,6 +576,42 @@ theorem add_error_no_side_effect (s : ShState) (dim : Int) (z : Int) (e : Err)
     obtain ⟨_, _, _, _, _, _, _, _, _, _, e8⟩ := decide_resize hD
     rw [hnew] at e8; cases e8
 
+/-- **`valid` means "all constraints hold", whatever the `live` flag**: the reported validity is a
+function of constraints, strictness and the stored value only — a live tensor whose storage was
+replaced behind the setter (first push of a lazily shaped record, `.data` of a parameter) or whose
+`strict` flag was switched afterwards is reported invalid exactly when a constraint is violated. -/
+theorem valid_independent_of_live (s : ShState) (b : Bool) :
+    ({ s with live := b } : ShState).valid = s.valid ∧ (shStep s (.setLive b)).1.valid = s.valid := ⟨rfl, rfl⟩
+
+/-- **Live assignment never invalidates**: under `live`, an assignment either is refused with
+`ValueError` leaving the whole state unchanged, or (also `RuntimeError` for `None` into a parameter)
+succeeds and leaves a valid tensor. -/
+theorem live_assign_keeps_valid (s : ShState) (hl : s.live = true) (v : Val) :
+    ((shStep s (.assign v)).2 = .unit ∧ (shStep s (.assign v)).1.valid = true ∧ (shStep s (.assign v)).1.val = v) ∨
+    ((shStep s (.assign v)).1 = s ∧
+      ((shStep s (.assign v)).2 = .err .ValueError ∨ (shStep s (.assign v)).2 = .err .RuntimeError)) := by
+  simp only [shStep]
+  split
+  · right; exact ⟨rfl, Or.inr rfl⟩
+  · split
+    · right; exact ⟨rfl, Or.inl rfl⟩
+    · rename_i h1 h2
+      left
+      refine ⟨rfl, ?_, rfl⟩
+      simpa [hl] using h2
+
+/-- an assignment never touches the constraints, the flags or (when refused) the value -/
+theorem assign_frame (s : ShState) (v : Val) :
+    (shStep s (.assign v)).1.cons = s.cons ∧ (shStep s (.assign v)).1.strict = s.strict ∧
+    (shStep s (.assign v)).1.live = s.live ∧ (shStep s (.assign v)).1.param = s.param ∧
+    ((shStep s (.assign v)).2 ≠ .unit → (shStep s (.assign v)).1 = s) := by
+  simp only [shStep]
+  split
+  · exact ⟨rfl, rfl, rfl, rfl, fun _ => rfl⟩
+  · split
+    · exact ⟨rfl, rfl, rfl, rfl, fun _ => rfl⟩
+    · exact ⟨rfl, rfl, rfl, rfl, fun h => absurd rfl h⟩
+
 /-- **Removing a constraint never alters data** (nor is any resize ever decided for a removal). -/
 theorem remove_never_alters_data (s : ShState) (dim : Int) :
     (shStep s (.recon dim none)).1.val = s.val ∧
@@ -682,16 +718,20 @@ end InfernoVerif.Record
 
 namespace InfernoVerif.Shaped
 /-- a 2×3 tensor constrained on dims 0 and -1 -/
-def exT : ShState := ⟨[(0, 2), (-1, 3)], true, false, .tensor [2, 3] [1, 2, 3, 4, 5, 6]⟩
+def exT : ShState := ⟨[(0, 2), (-1, 3)], true, false, .tensor [2, 3] [1, 2, 3, 4, 5, 6], false⟩
 example : exT.valid = true := by decide
 -- adding an incompatible constraint is refused, state untouched
 example : shStep exT (.recon 1 (some 5)) = (exT, .err .ValueError) := by decide
 -- strict {0, -1} needs two dimensions: a 1-d tensor is not valid although both sizes "match"
-example : (⟨[(0, 3), (-1, 3)], true, false, .tensor [3] [1, 2, 3]⟩ : ShState).valid = false := by decide
-example : (⟨[(0, 3), (-1, 3)], false, false, .tensor [3] [1, 2, 3]⟩ : ShState).valid = true := by decide
+example : (⟨[(0, 3), (-1, 3)], true, false, .tensor [3] [1, 2, 3], false⟩ : ShState).valid = false := by decide
+example : (⟨[(0, 3), (-1, 3)], false, false, .tensor [3] [1, 2, 3], false⟩ : ShState).valid = true := by decide
 -- editing keeps the tail / prepends zeros along the edited dimension
 example : (shStep exT (.recon (-1) (some 2))).1.val = .tensor [2, 2] [2, 3, 5, 6] := by decide
 example : (shStep exT (.recon (-1) (some 4))).1.val = .tensor [2, 4] [0, 1, 2, 3, 0, 4, 5, 6] := by decide
 -- removing never alters data
 example : (shStep exT (.recon 0 none)).1.val = exT.val := by decide
+-- live: an incompatible value is refused, a compatible one is stored
+example : shStep { exT with live := true } (.assign (.tensor [3, 3] [0, 0, 0, 0, 0, 0, 0, 0, 0]))
+    = ({ exT with live := true }, .err .ValueError) := by decide
+example : (shStep { exT with live := true } (.assign (.tensor [2, 3] [9, 9, 9, 9, 9, 9]))).2 = .unit := by decide
 end InfernoVerif.Shaped
